@@ -10,6 +10,7 @@ import props_alias as pa
 import props_dump as pdu
 import props_rest as prest
 import props_corrupt as pco
+import props_conc as pcc
 
 NOTE_STORE = ('theorems are about the tile model coq/Model/{Store,Coll}.v; the model is tied to the code by running '
               'the extracted model and the implementation on the same histories and comparing every step '
@@ -92,4 +93,8 @@ def C08(tier, seed, replay):
     return pco.check(tier, seed, replay)
 
 
-REGISTRY = {'C08': C08, 'C17': C17, 'C18': C18, 'C20': C20, 'C11': C11, 'C19': C19, 'C04': C04, 'C05': C05, 'C03': C03, 'C06': C06, 'C12': C12, 'C13': C13, 'C14': C14, 'C15': C15, 'C07': C07, 'C01': C01, 'C02': C02, 'C09': C09, 'C16': C16}
+def C10(tier, seed, replay):
+    return pcc.check(tier, seed, replay)
+
+
+REGISTRY = {'C10': C10, 'C08': C08, 'C17': C17, 'C18': C18, 'C20': C20, 'C11': C11, 'C19': C19, 'C04': C04, 'C05': C05, 'C03': C03, 'C06': C06, 'C12': C12, 'C13': C13, 'C14': C14, 'C15': C15, 'C07': C07, 'C01': C01, 'C02': C02, 'C09': C09, 'C16': C16}
